@@ -279,6 +279,25 @@ def seg_line(name, v):
     return "S\t%s\t*\tLN:i:%d" % (name, LEN[name]) if v == 1 else "S\t%s\t%d\t*" % (name, LEN[name])
 
 
+INV = {"+": "-", "-": "+"}
+
+
+def _dupkey(spec):
+    """GFA1 lines have no identifier: a C line is the same line if its text is the same, a link also if it is the
+    complement of the other (gfapy stores one line for the two spellings); E and G lines carry their own identifier"""
+    rt, a, o1, k1, b, o2, k2 = spec
+    if rt == "L":
+        return ("L",) + min((a, o1, b, o2), (b, INV[o2], a, INV[o1]))
+    if rt == "C":
+        return ("C", a, o1, b, o2)
+    return None
+
+
+def _clash(spec, edges, but=None):
+    k = _dupkey(spec)
+    return k is not None and any(x is not None and x is not but and _dupkey(x["spec"]) == k for x in edges)
+
+
 def _version(case):
     if case["kind"] == "single":
         return 1 if case["rt"] in "LC" else 2
@@ -307,7 +326,7 @@ def build(case):
             if v == 2 and spec[0] in "LC":
                 spec[0] = "E"
             txt = edge_line(*spec, idx=i)[0]
-            if spec[0] in "LC" and any(x["txt"] == txt for x in edges):
+            if _clash(spec, edges):
                 continue
             edges.append({"spec": spec, "idx": i, "txt": txt})
             lines.append(txt)
@@ -487,8 +506,7 @@ def oracle(case):
                         if key in new:
                             spec[j] = new[key]
                     new_txt = edge_line(*spec, idx=e["idx"], nm=nm)[0]
-                    if spec[0] in "LC" and any(x is not None and x is not e and x["spec"][0] == spec[0] and
-                                               edge_line(*x["spec"], idx=x["idx"], nm=nm)[0] == new_txt for x in edges):
+                    if _clash(spec, edges, but=e):
                         edges[st[1]] = None      # would be the same GFA1 line twice: leave the edge out
                     else:
                         if on == "fresh":
@@ -511,7 +529,7 @@ def oracle(case):
                     continue
                 idx = len(edges)
                 txt = edge_line(*spec, idx=idx, nm=nm)[0]
-                if spec[0] in "LC" and any(x is not None and edge_line(*x["spec"], idx=x["idx"], nm=nm)[0] == txt for x in edges):
+                if _clash(spec, edges):
                     edges.append(None)
                     continue
                 g.add_line(txt)
